@@ -3,7 +3,7 @@ import re
 import core, lib
 from core import call_matches, call_names, op_place, op_local, backward_slice
 
-LEVEL = 'proof'
+LEVEL = 'other'
 FLOOR = 14
 EXPLANATION = ('The file kinds moved/copied by migration equal the file kinds that make up a column (Column::drop_files); unselected columns are copied; '
                'every successful return of migrate has passed a propagated commit_raw; each of the rc re-commits of an entry carries the value (the value is '
@@ -68,6 +68,30 @@ def run(ctx):
         it = [bi for bi, t in mg.calls() if call_matches(t, ['db::Db::iter_column_index_while'])]
         for s in it:
             lib.precedes(ctx, '5d iterate-after-open', mg, so, [s], 'the index walk runs on the opened source')
+    if mg:
+        # hashed keys, copied column files and value entries are carried over as they are, and their layout depends on the format
+        # version in the metadata (key hashing of uniform columns, multipart layout): the destination - and the rewritten source
+        # metadata of an in-place migration - must keep the version of the source, not get CURRENT_VERSION (F40)
+        fam = lib.family(F, mg.path)
+        plain = [(b.path, x) for b in fam for x, t in b.calls() if x in b.normal_blocks() and call_matches(t, ['re:Options::write_metadata(_file)?$'])]
+        ctx.ob('5f no-versionless-metadata-write', 'K4-confinement', mg.path, 'migrate does not write metadata through the variants that stamp CURRENT_VERSION', not plain, str(plain))
+        wv = [x for x, t in mg.calls() if x in mg.normal_blocks() and call_matches(t, ['re:Options::write_metadata(_file)?_with_version$'])]
+        ctx.ob('5g0 versioned-metadata-writes', 'anchor', mg.path, 'migrate writes the destination metadata and, in place, the source metadata with an explicit version', len(wv) >= 2, str(wv))
+        for i, x in enumerate(wv):
+            t = mg.term(x)
+            v = t['a'][3] if len(t['a']) > 3 else None
+            ok = v is not None and op_place(v) is not None and '.Metadata.version' in backward_slice(mg, [op_place(v)]).fields
+            ctx.ob('5g metadata-written-with-source-version #%d' % i, 'K4-provenance', mg.path, 'the version written is the version read from the source metadata', ok,
+                   '' if ok else 'the version argument does not come from Metadata.version', mg.loc(x))
+        cmpv = []
+        for bi in mg.normal_blocks():
+            for st_ in mg.blocks[bi]['s']:
+                if st_['k'] == 'assign' and st_['r']['k'] == 'bin' and st_['r']['op'] in ('Eq', 'Ne'):
+                    pls = [op_place(a) for a in st_['r']['a'] if op_place(a) is not None]
+                    if pls and all('.Metadata.version' in backward_slice(mg, [pl]).fields for pl in pls) and len(pls) == 2:
+                        cmpv.append(bi)
+        lib.precedes(ctx, '5h destination-version-settled-before-open', mg, wv + cmpv, oc,
+                     'before the destination is opened (which would create it with CURRENT_VERSION) its metadata was written with the source version, or its existing version was compared with it')
     if mg:
         ins = [bi for bi, t in mg.calls() if call_matches(t, ['re:BTreeSet.*::insert$', 're:BTreeSet.*Extend<.*>>::extend$', 're:BTreeSet.*::extend$', 're:BTreeSet.*::append$']) and bi in mg.normal_blocks()]
         # the automatic selection: an insert that depends on a comparison of source and destination column options
@@ -147,6 +171,15 @@ def run(ctx):
         nn = lib.empty_slot_skipped(ctx, '4w empty-slot-skipped-not-terminal', ii, 'the migration index walk skips an empty slot and goes on with the rest of the chunk (removals leave holes in front of live entries)')
         lps = lib.for_loops_over(ii)
         ctx.ob('4w0 index-walk-anchors', 'anchor', ii.path, 'the walk is a loop over chunks with a loop over the entries of each chunk', len(lps) >= 2 or nn >= 1, 'loops %d, empty tests %d' % (len(lps), nn))
+    gt = ctx.body('column::HashColumn::get')
+    if ii and gt:
+        def reads_queue(b):
+            return any('.HashColumn.reindex' in lib.receiver_fields(x, t, 0) or '.Reindex.queue' in lib.receiver_fields(x, t, 0)
+                       for x in lib.family(F, b.path) for _bi, t in x.calls() if t['a'])
+        ctx.ob('4x0 lookup-searches-queued-tables', 'anchor', gt.path, 'HashColumn::get also searches the index tables in the reindex queue', reads_queue(gt), '')
+        ctx.ob('4x index-walk-covers-queued-tables', 'K9-agreement', ii.path,
+               'the index walk that feeds migration visits the same tables a lookup searches: the current index and every index table still in the reindex queue (a cleanly closed database may have a growth in progress)',
+               reads_queue(ii), 'iter_index_internal reads tables.index only; HashColumn::get also walks Reindex.queue')
     def range_from_consts(b):
         out = []
         for blk in b.blocks:
